@@ -354,7 +354,7 @@ let cmd_spec (a : sx list) : string =
                 "(ok " ^ hex (encode_e fs root e) ^ " " ^ hex (spec_encode fs root v) ^ " "
                 ^ b (AvroValue.conforms fs root v) ^ " " ^ b (layout_ok e) ^ " "
                 ^ show_dval (Denote.dval_any fs root v) ^ " " ^ show_sval (Denote.present fs root v) ^ " "
-                ^ show_target (Denote.typed_target fs (nat_of_int 12) root) ^ " "
+                ^ show_target (Denote.typed_target fs (Datatypes.S (Datatypes.S (Wf.depth_cost e))) root) ^ " "
                 ^ show_dval (Denote.dval_typed fs root v) ^ ")")
        | _ -> "(bad-schema)")
   | _ -> failwith "spec: arguments"
@@ -644,6 +644,83 @@ let cmd_own (a : sx list) : string =
     Buffer.add_string out (" " ^ (match oc with Done true -> "ok" | Done false -> "err" | Rejected -> "rejected" | Fault -> "FAULT") ^ !extra)) a;
   "(own" ^ Buffer.contents out ^ ")"
 
+(* ---------- derived schemas (C20) ---------- *)
+open Derive
+let sx_rprim = function
+  | "unit" -> Some PUnit | "bool" -> Some PBool | "i8" -> Some PI8 | "i16" -> Some PI16 | "i32" -> Some PI32
+  | "i64" -> Some PI64 | "u16" -> Some PU16 | "u32" -> Some PU32 | "u64" -> Some PU64 | "usize" -> Some PUsize
+  | "f32" -> Some PF32 | "f64" -> Some PF64 | _ -> None
+let rec sx_rtype s : rtype =
+  let (h, a) = head s in
+  match sx_rprim h with
+  | Some p -> TPrim p
+  | None ->
+  match h, a with
+  | "string", _ -> TString | "bytes", _ -> TBytes
+  | "bytearr", [n] -> TByteArr (sx_n n)
+  | "option", [t] -> TOption (sx_rtype t) | "vec", [t] -> TVec (sx_rtype t)
+  | "map", [t] -> TMap (sx_rtype t) | "ptr", [t] -> TPtr (sx_rtype t)
+  | "param", [i] -> TParam (sx_nat i)
+  | "named", id :: args -> TNamed (sx_nat id, L.map sx_rtype args)
+  | _ -> failwith ("unknown rtype " ^ h)
+let sx_aprim = function
+  | "null" -> Some ANull | "boolean" -> Some ABoolean | "int" -> Some AInt | "long" -> Some ALong
+  | "float" -> Some AFloat | "double" -> Some ADouble | "string" -> Some AString | "bytes" -> Some ABytes | _ -> None
+let rec sx_lk s : lk =
+  let (h, a) = head s in
+  match sx_aprim h with
+  | Some p -> LkPrim p
+  | None ->
+  match h, a with
+  | "arr", [n] -> LkArr (sx_n n)
+  | "option", [t] -> LkOption (sx_lk t) | "vec", [t] -> LkVec (sx_lk t) | "map", [t] -> LkMap (sx_lk t)
+  | "named", id :: args -> LkNamed (sx_nat id, L.map sx_lk args)
+  | _ -> failwith ("unknown lookup type " ^ h)
+let sx_slot t l : slot =
+  { sl_type = sx_rtype t;
+    sl_logical = (match head l with ("none", _) -> None | ("logical", [x]) -> sx_logical x | _ -> failwith "bad slot attribute") }
+let sx_header = function
+  | mp :: ns :: nm :: ident :: np :: rest ->
+      ({ h_modpath = sx_bytes mp;
+         h_ns = (match head ns with ("none", _) -> None | ("ns", [x]) -> Some (sx_bytes x) | _ -> failwith "bad namespace");
+         h_name = sx_bytes nm; h_ident = sx_bytes ident; h_nparams = sx_nat np }, rest)
+  | _ -> failwith "bad header"
+let keep s = match atom s with "keep" -> false | "skip" -> true | _ -> failwith "keep|skip"
+let sx_def s : def =
+  let (k, a) = head s in
+  let (h, rest) = sx_header a in
+  match k with
+  | "struct" ->
+      DStruct (h, L.map (fun f -> match head f with
+                                  | ("field", [n; t; l; sk]) -> { f_name = sx_bytes n; f_slot = sx_slot t l; f_skip = keep sk }
+                                  | _ -> failwith "bad field") rest)
+  | "newtype" -> (match rest with [t; l] -> DNewtype (h, sx_slot t l) | _ -> failwith "bad newtype")
+  | "unit_enum" ->
+      DUnitEnum (h, L.map (fun f -> match head f with ("sym", [n; sk]) -> (sx_bytes n, keep sk) | _ -> failwith "bad symbol") rest)
+  | "union_enum" ->
+      DUnionEnum (h, L.map (fun f -> match head f with
+                                     | ("unit", _) -> VUnit
+                                     | ("variant", [n; t; l]) -> VNewtype (sx_bytes n, sx_slot t l)
+                                     | _ -> failwith "bad variant") rest)
+  | _ -> failwith ("unknown definition " ^ k)
+
+(* derive DEFS ORACLE TYPE [unregistered] -> (ok (schema ...) NODUP) : the node vector of T::schema_mut() *)
+let cmd_derive (a : sx list) : string =
+  match a with
+  | ds :: orc :: t :: flags ->
+      let ds = (match head ds with ("defs", l) -> L.map sx_def l | _ -> failwith "expected (defs ...)") in
+      let orc = (match head orc with
+                 | ("oracle", l) -> L.map (function Ls [k; v] -> (sx_lk k, sx_bytes v) | _ -> failwith "bad oracle entry") l
+                 | _ -> failwith "expected (oracle ...)") in
+      let f = (match flags with [A "unregistered"] -> derive_schema_unregistered | _ -> derive_schema) in
+      (match f (nat_of_int 400) ds orc (sx_rtype t) with
+       | Ok g -> "(ok " ^ show_schema g ^ " " ^ (if no_dup_bytes (fullnames g) then "nodup" else "dup") ^ ")"
+       | Err _ -> "(err data)"
+       | Panic _ -> "(panic)"
+       | OutOfFuel -> "(outoffuel)"
+       | Unmodelled -> "(unmodelled)")
+  | _ -> failwith "derive: arguments"
+
 let run_case (line : string) : string =
   try
     match parse_many line with
@@ -663,6 +740,7 @@ let run_case (line : string) : string =
          | "sos" -> cmd_sos args
          | "sod" -> cmd_sod args
          | "freeze" -> cmd_freeze args
+         | "derive" -> cmd_derive args
          | "own" -> cmd_own args
          | _ -> failwith ("unknown command " ^ cmd))
     | _ -> "(bad-case)"
